@@ -271,6 +271,8 @@ def tool_cases(ck, rnd, tier, bd, wd, trace, owner):
         closefd0 = rnd.choice([(), (), (), (0,), (1,), (0, 1), (0, 1, 2), (2,)]) if i % 2 else ()
         if i % 5 == 3:
             closefd0 = closefd0 + ("stale",)
+        if [x for x in closefd0 if x != "stale"] and i % 4 == 1:
+            args = ["-vv"] + args        # the verbose option: what a tool logs must not land in a file it writes
         jobs.append((i, D, args, usedict, cap, closefd0))
     # systematic: a prefix of the split string straddling a 32 KiB block edge with k bytes before and j bytes
     # after it, then broken (or completed), at the first and second edge
@@ -296,6 +298,10 @@ def tool_cases(ck, rnd, tier, bd, wd, trace, owner):
             if tier == "quick" and (zi + len(args)) % 2 and args:
                 continue
             jobs.append((i, D, list(args), False, 0, ())); i += 1
+    # the verbose option with every set of missing standard descriptors (deterministic)
+    for vi, cf in enumerate([(2,), (1, 2), (0, 1, 2), (0, 2), (1,)]):
+        for vflag in ("-v", "-vv", "-vvv"):
+            jobs.append((i, corpus.text(rnd, 40000 + vi), [vflag] + (["--compression-format", "none"] if vi % 2 else []), False, 0, cf)); i += 1
     def work(j):
         i, D, args, usedict, cap, closefd0 = j
         d = os.path.join(wd, "tool%d" % i); os.makedirs(d, exist_ok=True)
@@ -325,7 +331,7 @@ def tool_cases(ck, rnd, tier, bd, wd, trace, owner):
             if "stale" in closefd0:
                 open(inp, "wb").write(D + corpus.rand(random.Random(i), 5000))
             try:
-                q = subprocess.run([unzck, "input.bin.zck"], stdout=subprocess.PIPE, stderr=subprocess.PIPE, timeout=120, cwd=os.path.join(d), preexec_fn=pre)
+                q = subprocess.run([unzck] + [a for a in args if a in ("-v", "-vv", "-vvv")] + ["input.bin.zck"], stdout=subprocess.PIPE, stderr=subprocess.PIPE, timeout=120, cwd=os.path.join(d), preexec_fn=pre)
                 us = q.returncode
             except subprocess.TimeoutExpired:
                 return (j, "Hang", None, None, None)
